@@ -152,6 +152,7 @@ struct Runtime {
     SymTab symtab;
     std::map<std::string, uint64_t> counters;
     bool stop_requested = false;
+    const bool *mark = nullptr; uint64_t preempt_marked = 0; // engine-provided per-thread flag; counts preemptions while it is set
     bool hist_enabled = false; std::map<uintptr_t, uint64_t> hist; // debugging aid: C19_HIST=1
     bool detect_races = true;  // off in the sequential reference execution (it only provides expected results)
 
@@ -164,7 +165,7 @@ struct Runtime {
     void reset(int n, uint64_t sched_seed, int strat, unsigned depth) {
         nthreads = n; cur = -1; strategy = strat; pct_depth = depth;
         sched.seed(sched_seed);
-        steps = preemptions = switches = mem_events = heap_events = reads_never_written = shadow_evictions = 0;
+        steps = preemptions = switches = mem_events = heap_events = reads_never_written = shadow_evictions = preempt_marked = 0;
         counters.clear();
         trace = sim::Digest();
         data_cells.assign((data_hi - data_lo + 7) / 8, Cell());
